@@ -207,7 +207,7 @@ fn main() {
                     // left / right pairs, top / bottom pairs, one odd corner
                     for (kq, radii) in [[*a, *b, *b, *a], [*a, *a, *b, *b], [*a, *b, *a, *b], [*a, *a, *a, *b]].iter().enumerate() {
                         n += 1;
-                        if !th && (n + ia + 2 * ib) % 3 != 0 {
+                        if !th && (n + ia + 2 * ib) % 2 != 0 {
                             continue;
                         }
                         let sw = [1u32, 2, 4, 1, 3][(n / 3) % 5];
